@@ -4,6 +4,7 @@ import Frugal.Proofs.BufferLemmas
 import Frugal.Props.Inst.Params
 import Frugal.Props.Inst.F_facts_bufferContract
 import Frugal.Props.Inst.F_skeleton_encoder
+import Frugal.Props.Inst.F_facts_encodeWritesOnlyOutput
 namespace Frugal.C16
 open Frugal
 /-- encoding is a function of the value: the model has no other input (map order aside), so
@@ -29,5 +30,13 @@ theorem code_follows_buffer_model : Generated.facts.bufferContract = true := Ins
     structure of the code (regenerated fingerprint; the fast-path tables are regenerated themselves) -/
 theorem encoder_model_written_from_this_code : Generated.facts.encoderSkeleton = Skeleton.encoder :=
   Instances.skeleton_encoder
+
+/-- "never modify the value they are given": in the model encoding is a function of the value, so the
+    statement is about the code — regenerated fact: in the encode and size functions every store goes to
+    a local variable or to the output buffer `b` (no assignment through a pointer, field or element of
+    anything else, no `append` / `copy` into anything but `b`).  The reflect-based map iteration and the
+    pooled copy of a by-value argument (hack.go, reflect.go) are outside this fact: snapshot oracle. -/
+theorem encoder_writes_only_its_output : Generated.facts.encodeWritesOnlyOutput = true :=
+  Instances.facts_encodeWritesOnlyOutput
 
 end Frugal.C16
